@@ -1047,7 +1047,9 @@ class Node:
                     must_keep = True
                 elif isinstance(res, SkipBranch):
                     if res.and_self is False:
-                        remove_nodes = n.children
+                        # Keep the node itself, but not its descendants
+                        must_keep = True
+                        remove_nodes.extend(n.children)
                     else:
                         remove_nodes.append(n)
                 elif isinstance(res, StopTraversal):
